@@ -21,7 +21,7 @@ ASSUMPTIONS = [
     "T-node emit log = bytes returned by node.emit during Program.emit (producer); write_block calls (consumer)",
 ]
 WEIGHTS = dict(ins=5, data=6, label=2, block=1.5, scope=0.8, macro=0.8, call=2, for_=1, if_=0.6, assign=1, sym=0.6, org=3.5, reloc=2.5,
-               ascii=1.5, incbin=0.8, branch=0.0, table=0.4, text=0.8, include=0.5)
+               ascii=1.5, incbin=0.8, branch=0.0, table=0.4, text=0.8, include=0.5, include_ips=0.6)
 
 
 def plan(tier: str, seed: int) -> list[dict]:
@@ -73,7 +73,8 @@ def check_program(res: Res, p: dict) -> None:
     moves = sum(1 for st, _, _ in walk(p["prog"]) if st["k"] in ("org", "reloc"))
     res.count("position_moves", moves)
     dev, stats = conservation(events, r.blocks)
-    if stats["emit_events"] == 0 or not nodetap().position_classes_known():
+    has_ips = any(st["k"] == "include_ips" for st, _, _ in walk(p["prog"]))
+    if stats["emit_events"] == 0 or not nodetap().position_classes_known() or has_ips:
         dev = None      # the tap is not attached (refactored internals): the reference assembler decides alone
     res.count("tap_emit_events", stats["emit_events"])
     res.count("bytes_produced", stats["produced_bytes"])
